@@ -1,6 +1,7 @@
 """C17 — span fields become labels: programs of NewSpan/Record/Enter/Exit/Drop/Emit on 1-3 threads
 against real tracing + Registry + MetricsLayer + TracingContext over a logging recorder."""
 import itertools
+import struct
 from .core import Prop, cq_N, cq_Z, cq_bool, cq_list, cq_opt, cq_bytes, cq_pair
 
 ASCII_PALETTE = ["a", "b", "c", "d", "e"]
@@ -24,6 +25,25 @@ UGROUPS = [
 ]
 UPOOL = sorted({n for g in UGROUPS for n in g})
 I64_MIN, I64_MAX, U64_MAX = -(1 << 63), (1 << 63) - 1, (1 << 64) - 1
+I128_MIN, I128_MAX, U128_MAX = -(1 << 127), (1 << 127) - 1, (1 << 128) - 1
+# boundary magnitudes per Visit entry point
+POOL_I64 = [0, 1, -1, 7, -5, I64_MIN, I64_MAX, I64_MIN + 1, 1 << 32, -(1 << 31)]
+POOL_U64 = [0, 1, 7, U64_MAX, 1 << 63, (1 << 63) - 1, 1 << 32]
+POOL_I128 = [0, 1, -1, 7, I128_MIN, I128_MAX, I128_MIN + 1, I64_MIN - 1, I64_MAX + 1, I64_MIN, U64_MAX, 1 << 64, -(1 << 64), 1 << 100]
+POOL_U128 = [0, 1, 7, U128_MAX, 1 << 127, (1 << 127) - 1, (1 << 127) + 1, 1 << 64, U64_MAX, I64_MAX + 1,
+             0x9F3C2A10D4E54B7A8C6E0123456789AB, 0x1F3C2A10D4E54B7A8C6E0123456789AB]      # UUID-like, top bit set / clear
+POOL_SMALL = [["i8", -128], ["i8", 127], ["i16", -32768], ["i32", -(1 << 31)], ["i32", (1 << 31) - 1], ["isize", I64_MIN], ["isize", -1],
+              ["u8", 255], ["u8", 0], ["u16", 65535], ["u32", (1 << 32) - 1], ["usize", U64_MAX], ["i32", 7], ["u8", 7]]
+def _bits(x):
+    return struct.unpack("<Q", struct.pack("<d", x))[0]
+POOL_F64 = [_bits(x) for x in (0.0, -0.0, 1.0, -1.0, 0.1, 1.5, 7.0, float("inf"), float("-inf"), 1.7976931348623157e308, 2.2250738585072014e-308,
+                               5e-324, 1e16, 9999999999999998.0, 1e-4, 9.999e-5, 1e21, 9007199254740992.0, 9223372036854775808.0, 1e-7,
+                               123456789.125, -1e300, 0.30000000000000004)] + [0x7ff8000000000000, 0xfff8000000000001, 0x7ff0000000000001]   # NaNs
+POOL_F32 = [0x3dcccccd, 0x7fc00000, 0xff800000, 0x80000000, 0x3fc00000, 0x7f7fffff, 0x00000001]   # 0.1f32, NaN, -inf, -0.0, 1.5, MAX, min subnormal
+POOL_BYTES = ["", "00", "ff", "00ff10", "616263", "000102030405060708090a0b0c0d0e0f101112131415161718191a1b1c1d1e1f"]
+POOL_ERR = ["oops", "", "io: é", "two\nlines", '"quoted"']
+POOL_DEBUG = ["x", "", "a\"b", "1", "line1\nline2", "tab\there", "back\\slash", "it's", "é名😀", "e\u0301", "\0", "\x1b[0m", "7"]
+POOL_DISPLAY = ["x", "1", "true", "é", "名", "multi\nline", 'q"uote', ""]
 
 
 def xh(s):
@@ -36,34 +56,85 @@ def unxh(s):
 
 
 def debug_str(s):
+    """<str as Debug>: quotes, \\-escapes, \\n \\t \\r \\0, \\u{..} for other controls and for grapheme-extending marks (U+0301);
+    the single quote and printable non-ASCII stay as they are"""
     out = '"'
     for ch in s:
+        o = ord(ch)
         if ch == '"':
             out += '\\"'
         elif ch == "\\":
             out += "\\\\"
+        elif ch == "\n":
+            out += "\\n"
+        elif ch == "\t":
+            out += "\\t"
+        elif ch == "\r":
+            out += "\\r"
+        elif ch == "\0":
+            out += "\\0"
+        elif o < 0x20 or o == 0x7f or o == 0x301:
+            out += "\\u{%x}" % o
         else:
             out += ch
     return out + '"'
 
 
+def rust_f64_debug(x):
+    """<f64 as Debug> of Rust >= 1.58: shortest round-trip digits, exponent form iff |x| >= 1e16 or 0 < |x| < 1e-4"""
+    if x != x:
+        return "NaN"
+    if x == float("inf"):
+        return "inf"
+    if x == float("-inf"):
+        return "-inf"
+    r = repr(x)
+    if "e" in r:
+        m, e = r.split("e")
+        if m.endswith(".0"):
+            m = m[:-2]
+        return "%se%d" % (m, int(e))
+    return r
+
+
+def f64_of_bits(b):
+    return struct.unpack("<d", struct.pack("<Q", b))[0]
+
+
+def f32_of_bits(b):
+    return struct.unpack("<f", struct.pack("<I", b))[0]
+
+
+SIGNED_SMALL = {"i8": 8, "i16": 16, "i32": 32, "isize": 64}
+UNSIGNED_SMALL = {"u8": 8, "u16": 16, "u32": 32, "usize": 64}
+
+
 def render(v):
-    """python rendering of a typed value (used for signatures only, and as the oracle for Debug forms)"""
+    """python rendering of a typed value: the oracle for the Debug/Display/ryu forms (VDebug/VError data); for the
+    types the Coq model renders itself (str, bool, 64- and 128-bit integers, bytes) it is used for nothing but statistics"""
     t, x = v
-    if t == "e":
+    if t == "e" or (t == "q" and x is None):
         return None
-    if t in ("s", "p"):
+    if t in ("s", "S", "p", "r", "R"):
         return x
     if t == "b":
         return "true" if x else "false"
-    if t in ("i", "u", "I"):
+    if t in ("i", "u", "I", "U", "Z", "z", "W", "q"):
         return str(x)
+    if t == "t":
+        return str(x[1])
     if t == "d":
         return debug_str(x)
     if t == "o":
         return "None" if x is None else "Some(%d)" % x
     if t == "f":
-        return repr(x / 2.0)
+        return rust_f64_debug(x / 2.0)
+    if t == "F":
+        return rust_f64_debug(f64_of_bits(x))
+    if t == "g":
+        return rust_f64_debug(f32_of_bits(x))
+    if t == "y":
+        return "[" + " ".join("%02x" % b for b in bytes.fromhex(x)) + "]"
     raise ValueError(t)
 
 
@@ -71,28 +142,108 @@ def val_tok(v):
     t, x = v
     if t == "e":
         return "e"
-    if t in ("s", "d", "p"):
+    if t in ("s", "S", "d", "p", "r", "R"):
         return t + x.encode("utf-8").hex()
     if t == "b":
         return "b1" if x else "b0"
-    if t == "o":
-        return "on" if x is None else "o%d" % x
+    if t in ("o", "q"):
+        return t + "n" if x is None else "%s%d" % (t, x)
+    if t == "t":
+        return "t%s.%d" % (x[0], x[1])
+    if t == "F":
+        return "F%016x" % x
+    if t == "g":
+        return "g%08x" % x
+    if t == "y":
+        return "y" + x
     return "%s%d" % (t, x)
 
 
 def cq_val(v):
     t, x = v
-    if t == "e":
+    if t == "e" or (t == "q" and x is None):
         return "VEmpty"
-    if t == "s":
+    if t in ("s", "S"):
         return "VStr %s" % cq_bytes(x)
     if t == "b":
         return "VBool %s" % cq_bool(x)
-    if t == "i":
+    if t in ("i", "z", "W", "q"):
         return "VI64 %s" % cq_Z(x)
     if t == "u":
         return "VU64 %s" % cq_N(x)
+    if t == "t":
+        return ("VI64 %s" % cq_Z(x[1])) if x[0] in SIGNED_SMALL else ("VU64 %s" % cq_N(x[1]))
+    if t == "I":
+        return "VI128 %s" % cq_Z(x)
+    if t in ("U", "Z"):
+        return "VU128 %s" % cq_N(x)
+    if t == "y":
+        return "VBytes %s" % cq_bytes(bytes.fromhex(x))
+    if t in ("r", "R"):
+        return "VError %s" % cq_bytes(x)
     return "VDebug %s" % cq_bytes(render(v))
+
+
+ENTRY = {"s": "record_str", "S": "record_str", "b": "record_bool", "i": "record_i64", "z": "record_i64", "W": "record_i64", "q": "record_i64",
+         "u": "record_u64", "I": "record_i128", "U": "record_u128", "Z": "record_u128", "f": "record_f64", "F": "record_f64", "g": "record_f64",
+         "y": "record_bytes", "r": "record_error", "R": "record_error", "d": "record_debug", "p": "record_debug", "o": "record_debug", "e": "(none)"}
+
+
+def value_class(v):
+    """(Visit entry point, magnitude / shape class) of a typed value, for the coverage statistics"""
+    t, x = v
+    if t == "t":
+        return ("record_i64" if x[0] in SIGNED_SMALL else "record_u64", "%s %s" % (x[0], "boundary" if abs(x[1]) > 100 or x[1] in (0, -128) else "small"))
+    ep = ENTRY[t]
+    if t == "q" and x is None:
+        return ("(none)", "Option::None")
+    if t == "e":
+        return ("(none)", "Empty")
+    if ep in ("record_i64", "record_u64", "record_i128", "record_u128"):
+        n = x
+        if n == 0:
+            c = "0"
+        elif n in (1, -1):
+            c = "+-1"
+        elif n in (I64_MIN, I64_MAX, U64_MAX, I128_MIN, I128_MAX, U128_MAX, 1 << 127, 1 << 64, 1 << 63, (1 << 63) - 1):
+            c = {I64_MIN: "i64::MIN", I64_MAX: "i64::MAX", U64_MAX: "u64::MAX", I128_MIN: "i128::MIN", I128_MAX: "i128::MAX = 2^127-1",
+                 U128_MAX: "u128::MAX", 1 << 127: "2^127", 1 << 64: "2^64", 1 << 63: "2^63"}[n]
+        elif n >= (1 << 127):
+            c = ">= 2^127 (other)"
+        elif abs(n) >= (1 << 64):
+            c = "beyond 64 bit (other)"
+        elif abs(n) >= (1 << 31):
+            c = "beyond 32 bit (other)"
+        else:
+            c = "small"
+        return (ep, c)
+    if ep == "record_f64":
+        f = x / 2.0 if t == "f" else (f64_of_bits(x) if t == "F" else f32_of_bits(x))
+        if f != f:
+            c = "NaN"
+        elif f in (float("inf"), float("-inf")):
+            c = "+-inf"
+        elif f == 0:
+            c = "-0.0" if struct.pack("<d", f)[7] & 0x80 else "0.0"
+        elif abs(f) >= 1e16 or abs(f) < 1e-4:
+            c = "exponent form"
+        else:
+            c = "decimal form"
+        return (ep, c + (" (f32)" if t == "g" else ""))
+    if ep == "record_bool":
+        return (ep, str(x).lower())
+    if ep == "record_bytes":
+        return (ep, "empty" if not x else "%d bytes" % (len(x) // 2))
+    s_ = x if isinstance(x, str) else ("None" if x is None else "Some")
+    if s_ == "":
+        c = "empty"
+    elif any(ch in s_ for ch in '"\n\t\\\0\x1b'):
+        c = "quotes / newlines / escapes"
+    elif any(ord(ch) > 127 for ch in s_):
+        c = "non-ASCII"
+    else:
+        c = "ASCII"
+    return (ep, {"d": "?str ", "p": "%str ", "o": "?Option ", "S": "String ", "R": "Send+Sync "}.get(t, "") + c)
 
 
 def cq_fields(fs):
@@ -128,13 +279,20 @@ class C17(Prop):
     quick_cases = 2500
     thorough_cases = 40000
     shard = 160
-    rule = ("random programs (4-30 events plus closing emissions; directed families up to ~42 events) of NewSpan/Record/Enter/Exit/Drop/Emit on 1-3 threads over 65 static callsites "
-            "(every ordered selection of distinct names from {a,b,c,d}), parents contextual/root/explicit, values "
-            "Empty/str/bool/i64/u64/i128/f64/?Debug/%Display from small alphabets, metric labels from {a..e} (duplicates allowed), "
-            "filters IncludeAll / Allowlist / first-match table predicate; plus an adversarial stream (same name on every level of a "
-            "deep chain, late records, duplicate enters, out-of-order exits, handles dropped while entered, everything filtered out, "
-            "own labels covering all span fields); a case is non-trivial if at least one emitted key differs from the metric's own; "
-            "distinct = distinct (case, outputs)")
+    rule = ("random programs (4-33 events; directed families up to ~55) of NewSpan/Record/Enter/Exit/Drop/Emit on 1-3 threads. Names: every case "
+            "draws 5 names (4 usable as span fields, all 5 as metric label / allow-list / table-rule names) from a palette: 55% ASCII {a..e} (spans "
+            "then come from 65 static span! callsites, every ordered selection of distinct names from {a,b,c,d}), else a Unicode palette (9 confusable "
+            "groups: NFC/NFD, case, compatibility forms, equal byte length with different char count and vice versa, 1-4 byte scalars, combining "
+            "marks, the empty name, dotted names; or 5 names sampled from their union), with callsites built at run time from leaked names. Values: "
+            "every Visit entry point of tracing-core 0.1.33 (Empty, &str/String, bool, i64, u64, small ints, NonZero, Wrapping, Option<T>, i128, u128, "
+            "f64 by bit pattern incl. NaN/+-inf/-0.0/exponent forms, f32, bytes, errors, ?Debug, %Display) with boundary magnitudes (0, +-1, "
+            "i64/u64/i128/u128 MIN/MAX, 2^63, 2^64, 2^127, 2^127-1, UUID-like) and strings incl. empty, multi-byte, quotes/newlines/escapes; the "
+            "per-run distribution is in coverage.value_distribution. Parents contextual/root/explicit; metric labels with duplicates allowed; filters "
+            "IncludeAll / Allowlist (palette entries, plus entries no span carries) / first-match table predicate. Every 6th case is one of 9 directed "
+            "families (same name on every level of a deep chain, late records, duplicate enters, out-of-order exits, handles dropped while entered, "
+            "everything filtered out, own labels covering all span fields, cross-thread spans, explicit parents, value routes = creation / inherited / "
+            "recorded later, allow-list exactness over confusable names); a case is non-trivial if at least one emitted key differs from the "
+            "metric's own; distinct = distinct (case, outputs)")
     design_ref = "DESIGN.md 4 C17"
     technique = ("Coq proof: refinement of the copy-at-creation label maps to a declarative lookup over the event history, and the "
                  "per-name precedence / no-duplicates / unchanged / thread-locality clauses of enhance_key for all programs, filters and "
@@ -161,7 +319,7 @@ class C17(Prop):
                   "depends on it). on_record's branch for a span without Labels is modelled but unreachable through the real layer.")
     assumptions = [
         "span handles are used through tracing's public API (span!, Span::record_all, Dispatch::enter/exit); per-layer filters of tracing-subscriber are not used",
-        "Debug/Display renderings of field values (f64, i128, Option, ?str, %str) are passed to the model as data (formatting oracle); i64/u64/bool/str renderings are modelled",
+        "renderings modelled in Coq: str, bool, i64/u64 (itoa = decimal Display), i128/u128 (the default record_i128/u128 -> record_debug, <i128/u128 as Debug> = decimal), bytes (tracing-core HexBytes); passed to the model as data (formatting oracle computed in python): f64/f32 Debug text, ?str / ?Option Debug text, %str, the Display text of errors",
         "field names, label names, allow-list entries and values are UTF-8 byte strings compared byte-for-byte (Rust str equality: no normalisation, no case folding); the model compares the same byte sequences",
         "threads run one event at a time (the harness serialises them over channels); the property concerns which span is current per thread, not data races",
     ]
@@ -182,26 +340,48 @@ class C17(Prop):
         self.M = ["m", "µ"] if self.uni else list(MNAMES)
 
     def rand_val(self, rng, allow_empty=True):
-        r = rng.below(100)
-        if allow_empty and r < 25:
+        if allow_empty and rng.below(100) < 25:
             return ["e", None]
-        if r < 50:
-            return ["s", rng.pick(STRS + USTRS) if self.uni or rng.chance(1, 6) else rng.pick(STRS)]
-        if r < 58:
+        strs = STRS + USTRS if self.uni or rng.chance(1, 6) else STRS
+        kind = rng.weighted([(17, "s"), (3, "S"), (6, "b"), (10, "i"), (8, "u"), (7, "I"), (9, "U"), (4, "t"), (2, "Z"), (1, "z"), (1, "W"),
+                             (2, "q"), (6, "F"), (2, "f"), (2, "g"), (4, "y"), (3, "r"), (2, "R"), (5, "d"), (3, "p"), (3, "o")])
+        if kind in ("s", "S"):
+            return [kind, rng.pick(strs)]
+        if kind == "b":
             return ["b", rng.chance(1, 2)]
-        if r < 70:
-            return ["i", rng.pick([-5, 0, 1, 7, I64_MIN, I64_MAX, rng.range(-20, 20)])]
-        if r < 80:
-            return ["u", rng.pick([0, 1, 7, U64_MAX, rng.below(20)])]
-        if r < 84:
-            return ["I", rng.pick([1, -5, (1 << 100), -(1 << 127)])]
-        if r < 89:
-            return ["d", rng.pick(["x", "", "a\"b", "1"])]
-        if r < 93:
-            return ["p", rng.pick(["x", "1", "true", "é", "名"])]
-        if r < 97:
-            return ["o", rng.pick([None, 1, -5])]
-        return ["f", rng.range(-6, 6)]
+        if kind == "i":
+            return ["i", rng.pick(POOL_I64 + [rng.range(-20, 20)])]
+        if kind == "u":
+            return ["u", rng.pick(POOL_U64 + [rng.below(20)])]
+        if kind == "I":
+            return ["I", rng.pick(POOL_I128)]
+        if kind == "U":
+            return ["U", rng.pick(POOL_U128 + [rng.next() << 64 | rng.next()])]
+        if kind == "t":
+            return ["t", list(rng.pick(POOL_SMALL))]
+        if kind == "Z":
+            return ["Z", rng.pick([x for x in POOL_U128 if x > 0])]
+        if kind == "z":
+            return ["z", rng.pick([x for x in POOL_I64 if x != 0])]
+        if kind == "W":
+            return ["W", rng.pick(POOL_I64)]
+        if kind == "q":
+            return ["q", rng.pick([None, 5, I64_MIN, -1])]
+        if kind == "F":
+            return ["F", rng.pick(POOL_F64)]
+        if kind == "f":
+            return ["f", rng.range(-6, 6)]
+        if kind == "g":
+            return ["g", rng.pick(POOL_F32)]
+        if kind == "y":
+            return ["y", rng.pick(POOL_BYTES)]
+        if kind in ("r", "R"):
+            return [kind, rng.pick(POOL_ERR)]
+        if kind == "d":
+            return ["d", rng.pick(POOL_DEBUG)]
+        if kind == "p":
+            return ["p", rng.pick(POOL_DISPLAY)]
+        return ["o", rng.pick([None, 1, -5, I64_MIN])]
 
     def rand_filter(self, rng):
         r = rng.below(100)
@@ -382,20 +562,62 @@ class C17(Prop):
             for f in range(3):
                 evs.append(M(0, labels=[[rng.pick(self.L), "own"]], f=f))
         else:
-            # value types: the same value through every route
-            vals = [["s", "7"], ["i", 7], ["u", 7], ["I", 7], ["p", "7"], ["d", "7"], ["o", 7], ["f", 14], ["b", True], ["s", "true"],
-                    ["i", I64_MIN], ["i", I64_MAX], ["u", U64_MAX], ["i", 0], ["u", 0], ["i", -1]]
+            # value routes: boundary values of every Visit entry point, given at span creation, inherited by a child span
+            # (emission inside the child, which does not carry the name itself) and recorded later (on the child, and on
+            # the parent after the child exists, which the child must not see)
+            pools = [["i", x] for x in POOL_I64] + [["u", x] for x in POOL_U64] + [["I", x] for x in POOL_I128] + [["U", x] for x in POOL_U128] + \
+                    [["t", list(x)] for x in POOL_SMALL] + [["F", x] for x in POOL_F64] + [["g", x] for x in POOL_F32] + [["y", x] for x in POOL_BYTES] + \
+                    [["r", x] for x in POOL_ERR] + [["R", x] for x in POOL_ERR[:2]] + [["d", x] for x in POOL_DEBUG] + [["p", x] for x in POOL_DISPLAY] + \
+                    [["s", x] for x in STRS + USTRS] + [["S", "owned"], ["b", True], ["b", False], ["o", 7], ["o", None], ["q", 5], ["q", None],
+                                                        ["W", -1], ["z", I64_MIN], ["Z", U128_MAX], ["Z", 1 << 127], ["f", 14]]
             i = 0
-            for v in rng.shuffle(vals)[:rng.range(3, 8)]:
-                evs += [["N", 0, i, "r", [[rng.pick(self.N), v]]], ["E", 0, i], M(0, f=0), ["X", 0, i]]
-                i += 1
+            for _ in range(rng.range(2, 4)):
+                v, v2, v3 = rng.pick(pools), rng.pick(pools), rng.pick(pools)
+                n0, n1 = rng.shuffle(self.N)[:2]
+                evs += [["N", 0, i, "r", [[n0, v], [n1, ["e", None]]]], ["E", 0, i], M(0, labels=[], f=0),
+                        ["N", 0, i + 1, "c", [[n1, ["e", None]]]], ["E", 0, i + 1], M(0, labels=[], f=0),
+                        ["R", 0, i + 1, [[n1, v2]]], M(0, labels=[], f=0),
+                        ["R", 0, i, [[n0, v3]]], M(0, f=0), ["X", 0, i + 1], M(0, labels=[], f=0), ["X", 0, i]]
+                self._inherited.append(v)
+                i += 2
         return dict(filters=filters, events=evs)
+
+    _dist = None
+    _inherited = []
 
     def gen(self, rng, n):
         cases = []
+        self._inherited = []
         for i in range(n):
             cases.append(self.gen_adversarial(rng) if i % 6 == 5 else self.gen_random(rng))
+        if self._dist is None:          # statistics of the main batch only (not of the directed-search / shrink batches)
+            self._dist = self.value_distribution(cases, self._inherited)
         return cases
+
+    @staticmethod
+    def value_distribution(cases, inherited):
+        """how often each (Visit entry point, magnitude class) occurs: at span creation, in a later record, and as the value a child
+        span inherits in the 'value routes' family (random nesting adds more inherited values that are not counted here)"""
+        d = {"at_creation": {}, "recorded_later": {}, "inherited_by_child (value-routes family only)": {}}
+        def add(where, v):
+            ep, c = value_class(v)
+            k = "%s | %s" % (ep, c)
+            d[where][k] = d[where].get(k, 0) + 1
+        for c in cases:
+            for e in c["events"]:
+                if e[0] == "N":
+                    for _, v in e[4]:
+                        add("at_creation", v)
+                elif e[0] == "R":
+                    for _, v in e[3]:
+                        add("recorded_later", v)
+        for v in inherited:
+            add("inherited_by_child (value-routes family only)", v)
+        return {k: dict(sorted(x.items())) for k, x in d.items()}
+
+    def extra_checks(self, ctx):
+        ctx["coverage"]["value_distribution"] = self._dist
+        return []
 
     # ------------------------------------------------------------------ plumbing
     def impl_line(self, c):
